@@ -611,9 +611,18 @@ func c11hCheck(sc *c11hScenario, obs *c11hObs, r *vrt.Result, timeConsistent fun
 		}
 	}
 	for ci, d := range obs.hh.Downs {
+		// root-cause qualifier of the keys below: the connection was closed by MOSN before the exit
 		closedBy := ""
 		if d.Conn.IsClosed() {
 			closedBy = fmt.Sprintf(" [MOSN closed the connection before exit: %v]", d.Conn.CloseEvent)
+			if sc.Proto == "Http2" {
+				for _, j := range d.Sent {
+					// body reads of a stream whose HEADERS reached MOSN only after the signal were handed in
+					if sc.Requests[j].Body && !obs.headBeforeSig(j) && obs.Started[j] > obs.HeadIdx[j]+1 {
+						closedBy = fmt.Sprintf(" [MOSN closed the connection before exit: %v, after DATA frames of a stream the client opened after the signal]", d.Conn.CloseEvent)
+					}
+				}
+			}
 		}
 		for k, i := range d.Sent {
 			rq := &sc.Requests[i]
@@ -798,10 +807,14 @@ func c11hScenarios(proto string) []c11hScenario {
 	// --- a second connection of the same listener
 	add(c11hScenario{hhScenario: hhScenario{ReplyDelayMs: 55, Requests: rs(post("t1", hhOK), on(1, get("t2", hhDelayOK)))}, Cut: []string{"split"}, Pause: []string{"headers"}}, "headers")
 	add(c11hScenario{hhScenario: hhScenario{ReplyDelayMs: 55, Requests: rs(get("t1", hhOK), on(1, get("t2", hhDelayOK)))}}, "", "response-started")
+	// ... whose request is sent only when MOSN is already draining (a new connection's request after the signal: enumerated)
+	add(c11hScenario{hhScenario: hhScenario{ReplyDelayMs: 55, Requests: rs(get("t1", hhDelayOK), on(1, get("t2", hhOK)))}, Pause: []string{"", "before"}}, "upstream-sent")
 	if h2 {
 		// --- a second stream on the same connection
 		add(c11hScenario{hhScenario: hhScenario{ReplyDelayMs: 55, Concurrent: true, Requests: rs(post("t1", hhOK), get("t2", hhDelayOK))}, Cut: []string{"split"}, Pause: []string{"headers"}}, "headers")
 		add(c11hScenario{hhScenario: hhScenario{ReplyDelayMs: 55, Concurrent: true, Requests: rs(get("t1", hhDelayOK), get("t2", hhOK))}}, "", "upstream-sent")
+		// ... opened only when MOSN is already draining (the client has not seen the GOAWAY yet): HEADERS above the last-stream-id are ignored
+		add(c11hScenario{hhScenario: hhScenario{ReplyDelayMs: 55, Concurrent: true, Requests: rs(get("t1", hhDelayOK), get("t2", hhOK))}, Pause: []string{"", "before"}}, "upstream-sent")
 	} else {
 		// --- keep-alive: the second request follows the first response on the same connection
 		add(c11hScenario{hhScenario: hhScenario{ReplyDelayMs: 55, Requests: rs(get("t1", hhOK), get("t2", hhDelayOK))}}, "", "response-started")
@@ -823,7 +836,6 @@ func c11hScenarios(proto string) []c11hScenario {
 		if h2 {
 			// a new stream WITH a body opened after the signal next to a stream in flight
 			add(c11hScenario{hhScenario: hhScenario{ReplyDelayMs: 55, Concurrent: true, Requests: rs(get("t1", hhDelayOK), post("t2", hhOK))}, Cut: []string{"", "split"}, Pause: []string{"", "before"}}, "upstream-sent", "quiesce")
-			add(c11hScenario{hhScenario: hhScenario{ReplyDelayMs: 55, Concurrent: true, Requests: rs(get("t1", hhDelayOK), get("t2", hhOK))}, Pause: []string{"", "before"}}, "upstream-sent")
 		}
 	}
 	return out
